@@ -22,6 +22,14 @@ class StopRun(Exception):
     """raised by the observer to bound the cost of a generated run (the blocks seen so far are still judged)"""
 
 
+class RunawayRun(Exception):
+    """raised by the observer when a run needs more than HARD_BLOCK_LIMIT blocks: no generated run on the unchanged tree comes near it
+    (the longest have 1500 steps), so this is a run that does not end - a count-based guard, reported as a failure by the runner"""
+
+
+HARD_BLOCK_LIMIT = 20000
+
+
 class Observer(ConvergenceController):
     """Snapshots every finished block *before* any other controller prepares the next one (control order -1000).
     Data goes to the shared list Observer.blocks (reset by the harness before each run)."""
@@ -73,6 +81,8 @@ class Observer(ConvergenceController):
         type(self).blocks.append(blk)
         if type(self).max_blocks is not None and len(type(self).blocks) >= type(self).max_blocks:
             raise StopRun()
+        if len(type(self).blocks) >= HARD_BLOCK_LIMIT:
+            raise RunawayRun(f'{len(type(self).blocks)} blocks and the run has not ended')
 
 
 class Inject(ConvergenceController):
